@@ -322,9 +322,9 @@ class POP3CommandHandler:
         """
         if pop3_num not in self.msg_sizes:
             assert self.mbox is not None
-            msg_key = self.snapshot_msg_keys[pop3_num - 1]
+            uid = self.snapshot_uids[pop3_num - 1]
             try:
-                msg = self.mbox.get_msg(msg_key)
+                msg = self.mbox.get_msg_by_uid(uid)
                 self.msg_sizes[pop3_num] = get_msg_size(msg)
             except (KeyError, FileNotFoundError):
                 # Message disappeared (concurrent modification).
@@ -414,9 +414,9 @@ class POP3CommandHandler:
             return True
 
         assert self.mbox is not None
-        msg_key = self.snapshot_msg_keys[n - 1]
+        uid = self.snapshot_uids[n - 1]
         try:
-            msg = self.mbox.get_msg(msg_key)
+            msg = self.mbox.get_msg_by_uid(uid)
         except (KeyError, FileNotFoundError):
             await self.client.push("-ERR message not available\r\n")
             return True
@@ -518,9 +518,9 @@ class POP3CommandHandler:
             return True
 
         assert self.mbox is not None
-        msg_key = self.snapshot_msg_keys[n - 1]
+        uid = self.snapshot_uids[n - 1]
         try:
-            msg = self.mbox.get_msg(msg_key)
+            msg = self.mbox.get_msg_by_uid(uid)
         except (KeyError, FileNotFoundError):
             await self.client.push("-ERR message not available\r\n")
             return True
